@@ -287,9 +287,7 @@ func (w *XLWorld) sendWire(e *xlEndpoint, b []byte) {
 			e.tcp = nil
 			return
 		}
-		c.Scripted = true
-		c.OnData = func(_ *TCPConn, b []byte) { w.onStream(e, b) }
-		c.OnEOF = func(_ *TCPConn, rst bool) {}
+		c.SetScripted(func(_ *TCPConn, b []byte) { w.onStream(e, b) }, func(_ *TCPConn, rst bool) {})
 		e.tcp, e.tcpUp = c, true
 		for _, q := range e.tcpQ {
 			_, _ = c.Write(q)
